@@ -213,7 +213,12 @@ type vc15Node struct {
 	t0      dag.Transaction
 	sibling dag.Transaction
 	head    dag.Transaction
+	watch   map[hash.SHA256Hash]bool // payload-store keys under observation
+	evMu    sync.Mutex
+	events  []vc15PayloadEvent
 }
+
+type vc15PayloadEvent struct{ ok bool }
 
 func vc15Has(list []string, s string) bool {
 	for _, x := range list {
@@ -256,6 +261,15 @@ func vc15Build(t testing.TB, dir string, k *vc15Keys, sc vc15Scenario) *vc15Node
 		t.Fatal(err)
 	}
 	n.p.cMan = newConversationManager(maxValidity)
+	n.watch = map[hash.SHA256Hash]bool{}
+	if _, err := n.state.Notifier("verif-c15-payload", func(e dag.Event) (bool, error) {
+		n.evMu.Lock()
+		n.events = append(n.events, vc15PayloadEvent{ok: e.Transaction != nil && hash.SHA256Sum(e.Payload).Equals(e.Transaction.PayloadHash())})
+		n.evMu.Unlock()
+		return true, nil
+	}, dag.WithSelectionFilter(func(e dag.Event) bool { return e.Type == dag.PayloadEventType })); err != nil {
+		t.Fatal(err)
+	}
 	n.peer = transport.Peer{ID: "peer", Address: "peer.test:5555", Authenticated: sc.PeerAuth}
 	if sc.PeerDID != "" {
 		n.peer.NodeDID = vc15DID(sc.PeerDID)
@@ -270,6 +284,7 @@ func vc15Build(t testing.TB, dir string, k *vc15Keys, sc vc15Scenario) *vc15Node
 			t.Fatalf("setup add: %v", err)
 		}
 		n.head = tx
+		n.watch[tx.PayloadHash()] = true
 	}
 	rootPayload := []byte("verif-c15 root payload")
 	n.root = vc15Sign(hash.SHA256Sum(rootPayload), nil)
@@ -434,31 +449,42 @@ func (x *vc15Run) judgeEnvelopes(n *vc15Node, probe vc15Probe, envs []*Envelope)
 	return
 }
 
-// payloadStore lists which of the monitored payloads V's store holds.
-func (x *vc15Run) payloadStore(n *vc15Node, monitored [][]byte) map[string]bool {
-	out := map[string]bool{}
+// payloadStore snapshots V's payload store at every watched key: the hashes of the monitored byte strings, the payload
+// hashes of every transaction the scenario placed or offered (n.watch). Value: sha256 of the bytes stored under the key.
+func (x *vc15Run) payloadStore(n *vc15Node, monitored [][]byte) map[string]string {
+	out := map[string]string{}
+	keys := map[hash.SHA256Hash]bool{}
 	for _, d := range monitored {
-		h := hash.SHA256Sum(d)
+		keys[hash.SHA256Sum(d)] = true
+	}
+	for h := range n.watch {
+		keys[h] = true
+	}
+	for h := range keys {
 		ok, err := n.state.IsPayloadPresent(context.Background(), h)
 		if err != nil {
 			panic(err)
 		}
 		if ok {
-			out[vc15Hex(d)] = true
+			stored, err := n.state.ReadPayload(context.Background(), h)
+			if err != nil {
+				out[h.String()] = "unreadable"
+				continue
+			}
+			out[h.String()] = hash.SHA256Sum(stored).String()
 		}
 	}
 	return out
 }
 
-// judgeStore: a payload that appeared in the store ⇒ a transaction with that payload hash is in the DAG and the
-// stored bytes hash to it.
-func (x *vc15Run) judgeStore(n *vc15Node, probe vc15Probe, before, after map[string]bool) {
-	for hx := range after {
-		if before[hx] {
+// judgeStore: bytes that appeared (or changed) under key h ⇒ sha256(bytes) = h and a transaction with payload hash h is
+// in the DAG. Also: every payload event emitted since the last call carries bytes that hash to its transaction's payload hash.
+func (x *vc15Run) judgeStore(n *vc15Node, probe vc15Probe, before, after map[string]string) {
+	for hx, sum := range after {
+		if before[hx] == sum {
 			continue
 		}
-		d, _ := hex.DecodeString(hx)
-		h := hash.SHA256Sum(d)
+		h, _ := hash.ParseHex(hx)
 		txs, err := n.state.FindBetweenLC(context.Background(), 0, dag.MaxLamportClock)
 		if err != nil {
 			panic(err)
@@ -469,18 +495,28 @@ func (x *vc15Run) judgeStore(n *vc15Node, probe vc15Probe, before, after map[str
 				found = true
 			}
 		}
-		stored, err := n.state.ReadPayload(context.Background(), h)
-		okBytes := err == nil && hash.SHA256Sum(stored).Equals(h)
+		okBytes := sum == hx
 		if !found || !okBytes {
 			cls := "no-transaction-with-that-payload-hash"
 			if found {
-				cls = "stored-bytes-do-not-hash-to-key"
+				cls = "bytes-do-not-hash-to-key"
 			}
 			x.r.Violation(fmt.Sprintf("C15|%s|%s|stored-%s", probe.Name, probe.Target, cls),
 				fmt.Sprintf("a payload received from the peer was stored although %s [%s]", cls, n.sc),
 				vc15Replay{Scenario: n.sc, Probe: probe.Name, Target: probe.Target})
 		} else {
 			x.r.Outcome("payload stored for a present transaction with matching hash (" + probe.Name + " " + probe.Target + ")")
+		}
+	}
+	n.evMu.Lock()
+	events := n.events
+	n.events = nil
+	n.evMu.Unlock()
+	for _, e := range events {
+		if !e.ok {
+			x.r.Violation(fmt.Sprintf("C15|%s|%s|payload-event-for-bytes-not-matching-hash", probe.Name, probe.Target),
+				fmt.Sprintf("a payload event was emitted for bytes that do not hash to the transaction's payload hash [%s]", n.sc),
+				vc15Replay{Scenario: n.sc, Probe: probe.Name, Target: probe.Target})
 		}
 	}
 }
@@ -639,6 +675,118 @@ func (x *vc15Run) solicited(n *vc15Node, monitored [][]byte) {
 	}
 }
 
+// listEntries: "a payload received from a peer" also arrives inside TransactionList entries. Every carrier
+// (answer to V's own range query, unsolicited list, list under a live conversation V opened for something else, answer to
+// V's list query) x transaction status {unknown, present without payload, present with payload} x offered bytes
+// {matching, mismatching, empty}; the handlers decide, the payload store and the payload events are judged.
+func (x *vc15Run) listEntries(n *vc15Node, monitored [][]byte) {
+	ctx := context.Background()
+	undecodable := tree.NewIblt(dag.IbltNumBuckets)
+	for i := 0; i < 3000; i++ {
+		undecodable.Insert(hash.SHA256Sum([]byte(fmt.Sprintf("noise %d", i))))
+	}
+	noise, _ := undecodable.MarshalBinary()
+	other := hash.SHA256Sum([]byte("some other xor"))
+	palForV := func() [][]byte {
+		ct, _ := nutsCrypto.EciesEncrypt(x.k.vPub, []byte(vc15V.String()))
+		return [][]byte{ct}
+	}
+	serial := 0
+	for _, carrier := range []string{"list-range-solicited", "list-unsolicited", "list-other-conversation", "list-solicited"} {
+		for _, status := range []string{"unknown-tx", "present-without-payload", "present-with-payload"} {
+			if carrier == "list-solicited" && status != "unknown-tx" {
+				continue // V only asks for transactions it does not have
+			}
+			for _, offer := range []string{"mismatching", "empty", "matching"} {
+				serial++
+				vtime.Advance(maxValidity + time.Second)
+				n.p.cMan.evict()
+				// the transaction the entry is about, and its true payload
+				truth := []byte(fmt.Sprintf("verif-c15 list entry payload %s %s %s %d", carrier, status, offer, serial))
+				var tx dag.Transaction
+				switch status {
+				case "unknown-tx":
+					tx = vc15Sign(hash.SHA256Sum(truth), palForV(), n.head)
+				case "present-without-payload":
+					tx = vc15Sign(hash.SHA256Sum(truth), palForV(), n.head)
+					if err := n.state.Add(ctx, tx, nil); err != nil {
+						x.t.Fatalf("placing a private transaction without payload: %v", err)
+					}
+					n.head = tx
+				case "present-with-payload":
+					tx, truth = n.tpub, x.k.pubLoad
+				}
+				n.watch[tx.PayloadHash()] = true
+				var bytesOffered []byte
+				switch offer {
+				case "matching":
+					bytesOffered = truth
+				case "mismatching":
+					bytesOffered = []byte(fmt.Sprintf("verif-c15 arbitrary bytes %d", serial))
+				}
+				if bytesOffered != nil {
+					n.watch[hash.SHA256Sum(bytesOffered)] = true
+				}
+				probe := vc15Probe{Name: carrier, Target: status + "-" + offer}
+				before := x.payloadStore(n, monitored)
+				n.evMu.Lock()
+				n.events = nil
+				n.evMu.Unlock()
+				entry := []*Transaction{{Data: tx.Data(), Payload: bytesOffered}}
+				var cid []byte
+				xor, clock := n.state.XOR(dag.MaxLamportClock)
+				switch carrier {
+				case "list-range-solicited":
+					// gossip with a foreign XOR and no refs -> V asks for State; an undecodable TransactionSet -> V asks for range [0, PageSize)
+					n.send(&Envelope{Message: &Envelope_Gossip{Gossip: &Gossip{XOR: other.Slice(), LC: clock}}})
+					var stateCID []byte
+					for _, e := range n.take() {
+						if st := e.GetState(); st != nil {
+							stateCID = st.ConversationID
+						}
+					}
+					if stateCID == nil {
+						x.t.Fatalf("vacuity: V did not send State after a gossip with a foreign XOR [%s]", n.sc)
+					}
+					n.send(&Envelope{Message: &Envelope_TransactionSet{TransactionSet: &TransactionSet{ConversationID: stateCID, LCReq: clock, LC: clock, IBLT: noise}}})
+					for _, e := range n.take() {
+						if q := e.GetTransactionRangeQuery(); q != nil {
+							cid = q.ConversationID
+						}
+					}
+					if cid == nil {
+						x.t.Fatalf("vacuity: V did not send a range query after an undecodable TransactionSet [%s]", n.sc)
+					}
+				case "list-unsolicited":
+					cid = []byte("nobody-asked")
+				case "list-other-conversation", "list-solicited":
+					asked := tx
+					if carrier == "list-other-conversation" {
+						asked = vc15Sign(hash.SHA256Sum([]byte(fmt.Sprintf("decoy %d", serial))), palForV(), n.head)
+					}
+					n.send(&Envelope{Message: &Envelope_Gossip{Gossip: &Gossip{XOR: xor.Xor(asked.Ref()).Slice(), LC: asked.Clock(), Transactions: [][]byte{vc15RefBytes(asked)}}}})
+					for _, e := range n.take() {
+						if q := e.GetTransactionListQuery(); q != nil {
+							cid = q.ConversationID
+						}
+					}
+					if cid == nil {
+						x.t.Fatalf("vacuity: V did not ask for an announced transaction (%s) [%s]", carrier, n.sc)
+					}
+				}
+				res := n.send(&Envelope{Message: &Envelope_TransactionList{TransactionList: &TransactionList{ConversationID: cid, Transactions: entry, TotalMessages: 1, MessageNumber: 1}}})
+				x.r.Outcome(carrier + " " + status + " " + offer + " -> " + res)
+				x.judgeEnvelopes(n, probe, n.take())
+				x.judgeStore(n, probe, before, x.payloadStore(n, monitored))
+				x.r.Eval(n.sc.String() + "|" + carrier + "|" + status + "|" + offer)
+				if present, _ := n.state.IsPresent(ctx, tx.Ref()); present && status == "unknown-tx" {
+					n.head = tx
+				}
+			}
+		}
+	}
+}
+
 func (x *vc15Run) runScenario(sc vc15Scenario) {
 	n := vc15Build(x.t, x.dir, x.k, sc)
 	defer n.close()
@@ -671,6 +819,9 @@ func (x *vc15Run) runScenario(sc vc15Scenario) {
 		}
 	}
 	x.solicited(n, monitored)
+	if x.only == nil || strings.HasPrefix(x.only.Probe, "list-") {
+		x.listEntries(n, monitored)
+	}
 	// whatever the notifier's own goroutine sent in the meantime is judged too
 	x.judgeEnvelopes(n, vc15Probe{Name: "background", Target: "none"}, n.take())
 }
